@@ -4,12 +4,14 @@ spec:   spec/Sector.tla (actions AddVariable, SetRHS, Exclude, AddCashFlow; inva
         C06_INC, C06_DefineOnce stated over the history `log`)
 TLC:    exhaustive check of the bounded instances; every maximal behaviour is emitted as the list
         of its action keys, the alphabet (key -> action record) once
-          quick     MC_Sector_quick.cfg      24 actions, histories of length 3
-          thorough  MC_Sector_thorough.cfg   56 actions, length 3
-                    MC_Sector_thorough2.cfg  the 24 actions of quick, length 4 (contains quick)
-                    MC_Sector_thorough3.cfg  all 144 actions of the instance, length 2
-replay: each behaviour is executed on a fresh real Sector 'S' inside a fresh real Model / Country
-        (a second Sector 'O' only receives the exclusions that must not concern S); after every
+          quick     MC_Sector_quick.cfg      25 actions, histories of length 3
+          thorough  MC_Sector_thorough.cfg   58 actions, length 3
+                    MC_Sector_thorough2.cfg  the 25 actions of quick, length 4 (contains quick)
+                    MC_Sector_thorough3.cfg  all 148 actions of the instance, length 2
+replay: each behaviour is executed on a fresh real Sector 'S' inside a fresh real Model / Country C1;
+        two more sectors only receive the exclusions that must not concern S: the twin 'T' = a
+        Sector with the SAME Code 'S' in a second Country C2 of the same Model (exclusions are per
+        sector object, codes are unique only within a country), and 'O' = another Code in C1; after every
         call EquationBlock['F'].RHS() and ['INC'].RHS() are evaluated by Python on the two integer
         valuations of the spec (LAG_F has a value), and the RHS text class of each flow variable
         (absent / empty / zero / defined:<text>, plus the value of the text) is recorded
@@ -35,6 +37,7 @@ from harness import core
 
 ENVS = [dict(A=5, B=2, LAG_F=1000, Z=3, W=8), dict(A=-3, B=7, LAG_F=-1003, Z=-4, W=-6)]     # = Vals of Sector.tla
 FLOW_NAMES = ('A', 'B')
+WHO = {'S': 'C1_S', 'T': 'C2_S(twin: same Code, other Country)', 'O': 'C1_O'}
 BATCH = 32000        # behaviours executed and validated per round (bounds memory; 8 TLC jobs of 4000)
 
 
@@ -52,7 +55,7 @@ def show(a):
         return "AddVariable('%s','','%s')" % (a['body'], a['eqn'])
     if a['op'] == 'SR':
         return "SetEquationRightHandSide('%s','%s')" % (a['body'], a['eqn'])
-    return "AddCashFlowIncomeExclusion(%s,'%s')" % ('S' if a['own'] else 'O', a['body'])
+    return "AddCashFlowIncomeExclusion(%s,'%s')" % (WHO[a['who']], a['body'])
 
 
 _CODE_CACHE = {}
@@ -116,9 +119,12 @@ def execute(beh, verbose=False):
     from sfc_models.models import Model, Country
     from sfc_models.sector import Sector
     mod = Model()
-    country = Country(mod, 'C', 'Country C')
+    country = Country(mod, 'C1', 'Country C1')
+    country2 = Country(mod, 'C2', 'Country C2')
     sec = Sector(country, 'S', 'Sector S')
-    other = Sector(country, 'O', 'Sector O')
+    targets = {'S': sec,
+               'T': Sector(country2, 'S', 'Sector S of the second country'),    # same Code, other object
+               'O': Sector(country, 'O', 'Sector O')}
     events = []
     for a in beh:
         ev = {'ev': 'Do', 'a': a, 'ok': True}
@@ -133,7 +139,7 @@ def execute(beh, verbose=False):
             elif a['op'] == 'SR':
                 sec.SetEquationRightHandSide(a['body'], a['eqn'])
             elif a['op'] == 'EX':
-                mod.AddCashFlowIncomeExclusion(sec if a['own'] else other, a['body'])
+                mod.AddCashFlowIncomeExclusion(targets[a['who']], a['body'])
             else:
                 raise core.MachineryError('unknown action %r' % (a,))
         except core.MachineryError:
@@ -169,10 +175,10 @@ def signature(clause, beh, events, at):
         rep = int(any(b['op'] == 'CF' and b['body'] == a['body'] for b in before))
         if clause == 'C06_F':
             return 'f:term=%s:repeat=%d' % (spelling(a), rep)
-        ex_s = int(any(b['op'] == 'EX' and b['own'] and b['body'] == a['body'] for b in before))
-        ex_o = int(any(b['op'] == 'EX' and not b['own'] and b['body'] == a['body'] for b in before))
-        return 'inc:term=%s:income=%d:excludedS=%d:excludedO=%d:repeat=%d' % (
-            spelling(a), int(a['inc']), ex_s, ex_o, rep)
+        ex = {w: int(any(b['op'] == 'EX' and b['who'] == w and b['body'] == a['body'] for b in before))
+              for w in ('S', 'T', 'O')}
+        return 'inc:term=%s:income=%d:excludedS=%d:excludedTwin=%d:excludedO=%d:repeat=%d' % (
+            spelling(a), int(a['inc']), ex['S'], ex['T'], ex['O'], rep)
     if clause == 'C06_DefineOnce':
         prev = events[at - 2]['defs'] if at >= 2 else {n: {'k': 'absent'} for n in FLOW_NAMES}
         own = prev.get(a['body'], {'k': 'n/a'})['k']
@@ -278,7 +284,7 @@ def run(rep):
         cfgs = [('MC_Sector_thorough.cfg', 1), ('MC_Sector_thorough2.cfg', 1), ('MC_Sector_thorough3.cfg', 1)]
     rep.rule = ('behaviours = all maximal histories (length MaxLen) of the bounded Sector instances emitted by TLC '
                 'over their action alphabets (AddCashFlow spellings x income flag x defining expression, Exclude for '
-                'this / another sector, AddVariable, SetEquationRightHandSide); each replayed on a fresh real '
+                'this sector / its same-Code twin in a second country / another sector, AddVariable, SetEquationRightHandSide); each replayed on a fresh real '
                 'Model/Country/Sector; distinct = distinct call sequences; non-trivial = at least one AddCashFlow')
     rep.exhaustive = True
     rep.assumptions = ['ledger and definition values are compared on two fixed integer valuations (they separate '
